@@ -18,6 +18,15 @@ FLOORS = {
               "zoo_with_events": 60, "zoo_nondefault_index_with_events": 30},
     "thorough": {"distinct_nontrivial": 30000, "K2_evaluations": 1500},
 }
+ANCHORS = [
+    "skchange.base.base_detector.BaseDetector.transform",
+    "skchange.change_detectors.base.ChangeDetector.sparse_to_dense",
+    "skchange.change_detectors.base.ChangeDetector.dense_to_sparse",
+    "skchange.anomaly_detectors.base.CollectiveAnomalyDetector.sparse_to_dense",
+    "skchange.anomaly_detectors.base.CollectiveAnomalyDetector.dense_to_sparse",
+    "skchange.anomaly_detectors.base.SubsetCollectiveAnomalyDetector.sparse_to_dense",
+    "skchange.anomaly_detectors.base.SubsetCollectiveAnomalyDetector.dense_to_sparse",
+]
 LEVEL = "exploration"
 EXHAUSTIVE_SUBSPACES = {
     "quick": ["all changepoint subsets of 1..n-1 for n<=8", "all sets of pairwise disjoint left-closed "
